@@ -72,19 +72,21 @@ func (s *SignedLatency) OnPing(pingReqID uint32) error {
 	var min, max, mean, p95, last float32
 	var latencies []float32
 
-	for _, v := range s.PingRequests {
+	for id, v := range s.PingRequests {
 		latency := float32(v.End.Sub(v.Start).Microseconds())
 		latencies = append(latencies, latency)
-		if latency < min || min == 0 {
+		if latency < min || len(latencies) == 1 {
 			min = latency
 		}
 		if latency > max {
 			max = latency
 		}
 		mean += latency
+		if id == pingReqID {
+			last = latency
+		}
 	}
 	mean = float32(math.Round(float64(mean) / float64(len(s.PingRequests))))
-	last = latencies[len(latencies)-1]
 
 	sort.Slice(latencies, func(i, j int) bool {
 		return latencies[i] < latencies[j]
